@@ -139,7 +139,7 @@ def gen_dump(ctx, name, cfgtext, base_state_of):
     for s in states:
         if not s["hist"]:
             continue
-        jobs.append((base, s["hist"], {len(s["hist"]): {"surf": s["surf"], "wl": s["wl"]}}))
+        jobs.append((base, s["hist"], {len(s["hist"]): {"surf": s["surf"], "wl": s["wl"], "tainted": s.get("tainted", False)}}))
     return jobs
 
 
@@ -161,7 +161,8 @@ def gen_sim(ctx, name, cfgtext, num, depth, seed):
         states = [s for (_, s) in beh]
         base = {"surf": states[0]["surf"], "wl": states[0]["wl"]}
         hist = states[-1]["hist"]
-        exp = {i: {"surf": states[i]["surf"], "wl": states[i]["wl"]} for i in range(1, len(states))}
+        exp = {i: {"surf": states[i]["surf"], "wl": states[i]["wl"], "tainted": states[i].get("tainted", False)}
+               for i in range(1, len(states))}
         jobs.append((base, hist, exp))
     return jobs
 
@@ -201,6 +202,19 @@ def main(ctx):
                               thick="OneThick", media="MCMedia", conics="MCConics", tilts="ZeroOnly",
                               decs="ZeroOnly", coefs="ZeroOnly", kinds="StdOnly", maxwl=1, maxpk=0,
                               invs=False, props=False), None)
+    # insertion in the middle / removal: stop and wavelength clauses only
+    for b in BASES:
+        ctx.model_check("MC_Lens", write_cfg(ctx, "ins_%s.cfg" % b, cfg_text(base=b, depth=3 if (quick or b == "Doublet") else 4,
+                        maxsurf=6, props=False, extras="InsertOnly", radii="SmallRadii", thick="OneThick",
+                        conics="ZeroOnly", tilts="ZeroOnly", decs="ZeroOnly", coefs="ZeroOnly", media="Media2")),
+                        workers=16)
+        jobs_ins = gen_dump(ctx, "genins_%s" % b,
+                            cfg_text(base=b, depth=3, maxsurf=6, radii="SmallRadii", thick="OneThick", conics="ZeroOnly",
+                                     tilts="ZeroOnly", decs="ZeroOnly", coefs="ZeroOnly", media="Media2",
+                                     invs=False, props=False, extras="InsertOnly"), None)
+        jobs_ins = [j for j in jobs_ins if any(c["op"] in ("insert_surface", "remove_surface") for c in j[1])]
+        ctx.extra["behaviours_with_insert_or_remove"] = ctx.extra.get("behaviours_with_insert_or_remove", 0) + len(jobs_ins)
+        jobs += jobs_ins
     nsim = 150 if quick else 3000
     simcfg = cfg_text(spec="Spec", base="Empty", depth=40, maxsurf=5, invs=False, props=False)
     jobs_sim = gen_sim(ctx, "sim", simcfg, nsim, 14 if quick else 22, ctx.seed + 1)
